@@ -36,10 +36,11 @@ const (
 
 func (p *c11) ID() string { return "C11" }
 func (p *c11) Rule() string {
-	return fmt.Sprintf("a case = %d expression texts + %d template texts derived from antlr/Excellent3.g4 (all operators with mixed precedence/associativity, unary-minus chains, redundant/missing parentheses, dot/index lookups with names, integers and quoted keys, calls of every deterministic registered function, lambdas, every spelling of text/number/boolean/null literals, random case and white space; templates add body text, '@@' and @identifiers), each evaluated in %d random (environment, context) pairs. For every text the real parser accepts: print, re-parse, print again, evaluate original and printed tree; for every template: refactor.Template with an identity transformation (keeping and re-printing) and with ContextRefRename(a -> b.c). An expression is non-trivial when it parsed and its tree has >= 2 operators or a lookup/call; a case is non-trivial when it holds such an expression; distinct = distinct case texts.", c11ExprsPerCase, c11TplsPerCase, c11Contexts)
+	return fmt.Sprintf("a case = %d expression texts + %d template texts derived from antlr/Excellent3.g4 (all operators with mixed precedence/associativity, unary-minus chains, redundant/missing parentheses, dot/index lookups with names, integers and quoted keys, calls of every deterministic registered function, lambdas, every spelling of text/number/boolean/null literals, random case and white space; templates add body text, '@@' and @identifiers), each evaluated in %d random (environment, context) pairs. For every text the real parser accepts: print, re-parse, print again, evaluate original and printed tree; for every template: refactor.Template with an identity transformation (keeping and re-printing) and with ContextRefRename(a -> b.c). Appended to every case from a stream of its own: 3 expressions + 1 template with chains of numeric dot lookups (keys up to 26 digits, contexts holding such keys); a batch of 4 templates (2 with anonymous functions whose parameter has the renamed name) rewritten by ONE ContextRefRename transformation, sequentially and (a third of the cases) by 8 goroutines at once, each output compared with that of a transformation of its own; one 13.2.0 flow definition with a localization section run through the 13.3 migration, every base and translated template judged by value in ctx[webhook.json := ctx[webhook]]. An expression is non-trivial when it parsed and its tree has >= 2 operators or a lookup/call; a case is non-trivial when it holds such an expression; distinct = distinct case texts.", c11ExprsPerCase, c11TplsPerCase, c11Contexts)
 }
 func (p *c11) Directed() []string {
-	return []string{"associativity", "literals", "lookups-lambdas", "refactor-tests", "doc-examples", "known:integer-dot-chain", "known:number-trailing-zeros", "known:trailing-backslash", "known:cherokee-identifier", "rename-lambda-capture", "known:rename-casefold"}
+	return []string{"associativity", "literals", "lookups-lambdas", "refactor-tests", "doc-examples", "known:integer-dot-chain", "known:number-trailing-zeros", "known:trailing-backslash", "known:cherokee-identifier", "rename-lambda-capture", "known:rename-casefold",
+		"numeric-dot-chains", "rename-shared-transformation", "migration-localized"}
 }
 func (p *c11) NumGenerated(tier string) int {
 	if tier == "thorough" {
@@ -56,7 +57,9 @@ func (p *c11) BatchSize(tier string) int {
 func (p *c11) CaseTimeoutS() int { return 30 }
 func (p *c11) Floors(tier string) []string {
 	return []string{"exprs.parsed", "exprs.nontrivial", "clause.print_parses", "clause.fixed_point", "clause.value_alike", "value.both_value", "value.both_error",
-		"clause.identity_unchanged", "clause.identity_reprinted", "clause.rename_value", "clause.rename_refs", "rename.references_renamed"}
+		"clause.identity_unchanged", "clause.identity_reprinted", "clause.rename_value", "clause.rename_refs", "rename.references_renamed",
+		"exprs.numeric_dot_chain_key_beyond_int64", "rename.shadowed_by_lambda_parameter", "clause.rename_shared_sequential", "clause.rename_shared_concurrent",
+		"clause.migration_value", "migration.translation_refers_base_does_not"}
 }
 
 func (p *c11) ExtraEvidence(tier string, counters map[string]int64) map[string]any {
@@ -136,7 +139,14 @@ func (p *c11) Run(c fw.Case) fw.Result {
 	for _, t := range tpls {
 		k.checkTemplate(t, c.Directed)
 	}
-	res.Fingerprint = strings.Join(exprs, "\x1f") + "\x1e" + strings.Join(tpls, "\x1f")
+	// the families added later (c11_extra.go): appended, from a random stream of their own
+	extra := ""
+	if c.Directed != "" {
+		extra, _ = k.extraDirected(c.Directed)
+	} else {
+		extra = k.extras(c)
+	}
+	res.Fingerprint = strings.Join(exprs, "\x1f") + "\x1e" + strings.Join(tpls, "\x1f") + "\x1e" + extra
 	res.NonTrivial = k.nontrivial > 0
 	if k.sampleExpr != nil {
 		res.Sample = map[string]any{"case": c.ID(), "expressions": len(exprs), "templates": len(tpls), "example": k.sampleExpr}
